@@ -12,7 +12,7 @@ from glue.core.util import split_component_view
 from glue.core.registry import Registry
 from glue.core.exceptions import IncompatibleAttribute
 from glue.core.message import SubsetDeleteMessage, SubsetUpdateMessage
-from glue.core.decorators import memoize
+from glue.core.decorators import memoize, clear_all_caches
 from glue.core.visual import VisualAttributes
 from glue.config import settings
 from glue.utils import (categorical_ndarray, combine_slices, floodfill, iterate_chunks,
@@ -431,6 +431,15 @@ class SubsetState(object):
     def __init__(self):
         pass
 
+    def __setattr__(self, name, value):
+        # Changing an existing attribute of a subset state in-place invalidates
+        # any cached masks, including those of composite subset states that
+        # contain this one.
+        changed = name in self.__dict__
+        object.__setattr__(self, name, value)
+        if changed:
+            clear_all_caches()
+
     @property
     def attributes(self):
         """
@@ -552,6 +561,7 @@ class RoiSubsetStateNd(SubsetState):
 
     def move_to(self, *args):
         self._roi.move_to(*args)
+        clear_all_caches()
 
     @contract(data='isinstance(Data)', view='array_view')
     def to_mask(self, data, view=None):
